@@ -5,7 +5,7 @@ package rsa
 import (
 	"bytes"
 	"crypto"
-	_ "crypto/sha256" // registers SHA-256, as any user of VerifyPSS(…, crypto.SHA256, …) does
+	"hash"
 	"math/big"
 
 	vr "github.com/zmap/zcrypto/internal/verifrt"
@@ -203,7 +203,10 @@ func VerifH_C23_malformed_public_key() {
 		case 0:
 			err = VerifyPKCS1v15(pub, crypto.Hash(0), msg, msg)
 		case 1:
-			err = VerifyPSS(pub, crypto.SHA256, msg, msg, nil)
+			// MD4 has no implementation linked in, so its slot carries the ideal hash
+			// (the standard SHA-256 compression function is outside the encoding).
+			crypto.RegisterHash(crypto.MD4, func() hash.Hash { return &mHash{size: 2} })
+			err = VerifyPSS(pub, crypto.MD4, msg, msg, nil)
 		case 2:
 			_, err = EncryptPKCS1v15(c23Rand{}, pub, msg)
 		case 3:
